@@ -348,6 +348,14 @@ void xop(string *a) {
   string v; object o; mixed e;
   v = a[0];
   switch (v) {
+  case "coinfo":  // coinfo: the driver's list of pending call_outs as one record (function:delay)
+    {
+      mixed *ci; string r; int i;
+      ci = call_out_info(); r = "COINFO " + me() + " t=" + time();
+      for (i = 0; i < sizeof(ci); i++) r += " " + ci[i][1] + ":" + ci[i][2] + ":" + (sizeof(ci[i]) > 3 && stringp(ci[i][3]) ? ci[i][3] : "-");
+      rec(r);
+    }
+    break;
   case "xco":     // xco <id> <ob> <fn> [arg]: call_other from this object; the outcome is one record
     {
       mixed r;
@@ -689,7 +697,7 @@ void do_op(string op) {
   case "mk": case "put": case "cyc": case "uncyc": case "share": case "cov": case "covf": case "itv": case "drop": case "clearall": case "rb": case "many": case "use": case "memstat": case "rcall": case "dslot": case "dkids": case "pinfo": case "pdump":
     cop(a);
     break;
-  case "xco": case "xaco": case "xreload": case "comp":
+  case "xco": case "xaco": case "xreload": case "comp": case "coinfo":
     xop(a);
     break;
   case "uclone": case "uload": case "useteuid": case "uexport": case "uids": case "ucall": case "ucf": case "uvs": case "umclone":
